@@ -187,6 +187,89 @@ def races(ctx, g, root):
         pcache.os = real_os
 
 
+def old_sources(ctx, g, root):
+    """a source file that was last modified long ago (an installed library), parsed into a cache directory whose clean-up is due (no lock file
+    yet, or an old one): the entry that this very parse saves is in use - it must still be there afterwards, also when the same happens again"""
+    for days in (45, 400):
+        for lock_state in ('no-lock', 'old-lock'):
+            path = os.path.join(root, 'old%d.py' % days)
+            code = 'v = %d\n' % days
+            with open(path, 'w') as f:
+                f.write(code)
+            t = time.time() - days * 86400
+            os.utime(path, (t, t))
+            cdir = Path(root) / ('cache-old-%d-%s' % (days, lock_state))
+            if lock_state == 'old-lock':
+                pcache.parser_cache.clear()
+                parse_cached(g, os.path.join(root, 'm0.py'), cdir)
+                lock = pcache._get_cache_clear_lock_path(cache_path=cdir)
+                if os.path.exists(lock):
+                    o = time.time() - 3 * 86400
+                    os.utime(lock, (o, o))
+            pcache.parser_cache.clear()
+            ctx.count('old-sources')
+            try:
+                parse_cached(g, path, cdir)
+            except Exception as e:
+                ctx.violation('C17:parse-raises-on-old-source:%s' % type(e).__name__, dict(kind='faults', state='old-source-%d-days+%s' % (days, lock_state), exception=preds.crash_sig(e)))
+                continue
+            ppath = pcache._get_hashed_path(g._hashed, Path(path), cache_path=cdir)
+            ok = False
+            try:
+                with open(ppath, 'rb') as f:
+                    ok = pickle.load(f).node.get_code() == code
+            except Exception:
+                pass
+            if not ok:
+                ctx.violation('C17:cleanup-deleted-entry-just-saved', dict(kind='faults', state='old-source-%d-days+%s' % (days, lock_state), entry=str(ppath)))
+
+
+def unwritable_everything(ctx, g, root):
+    """a cache root that cannot be written and does not hold the version directory yet (load side: the directory cannot be created), and a lock file
+    that cannot be touched although saving works (it belongs to somebody else): parsing succeeds all the same"""
+    real_os = pcache.os
+    path = os.path.join(root, 'm0.py')
+    code = open(path).read()
+    fresh_sig = preds.sig_tree(g.parse(code))
+
+    def deny(names, only=None):
+        class Deny:
+            def __getattr__(self, name):
+                real = getattr(real_os, name)
+                if name in names:
+                    def guarded(p, *a, **k):
+                        if only is None or only(str(p)):
+                            raise PermissionError(13, 'Permission denied', str(p))
+                        return real(p, *a, **k)
+                    return guarded
+                return real
+        return Deny()
+    for state, mk in (('read-only-root-without-version-directory', lambda cdir: deny(('makedirs', 'mkdir'))),
+                      ('lock-file-of-another-user', lambda cdir: deny(('utime',), only=lambda p: p.endswith('PARSO-CACHE-LOCK')))):
+        cdir = Path(root) / ('cache-' + state)
+        if state.startswith('lock'):
+            pcache.parser_cache.clear()
+            parse_cached(g, os.path.join(root, 'm1.py'), cdir)         # creates the directory and the lock file
+            lock = pcache._get_cache_clear_lock_path(cache_path=cdir)
+            if os.path.exists(lock):
+                o = time.time() - 3 * 86400
+                os.utime(lock, (o, o))
+        else:
+            os.makedirs(cdir, exist_ok=True)
+        pcache.os = mk(cdir)
+        try:
+            pcache.parser_cache.clear()
+            ctx.count('crash-states')
+            try:
+                m = parse_cached(g, path, cdir)
+                if preds.sig_tree(m) != fresh_sig:
+                    ctx.violation('C17:wrong-tree-on-%s' % state, dict(kind='faults', state=state, module=code))
+            except Exception as e:
+                ctx.violation('C17:parse-raises-on-%s:%s' % (state, type(e).__name__), dict(kind='faults', state=state, exception=preds.crash_sig(e), module=code))
+        finally:
+            pcache.os = real_os
+
+
 def run(ctx, b, drv):
     # a flipped bit in a length field makes pickle.load ask for gigabytes (and spend minutes filling them, inside C code that no signal
     # interrupts): with an address-space limit the allocation fails at once with MemoryError, which the loader treats like any other damage
@@ -387,6 +470,8 @@ def run_limited(ctx, b, drv):
                     del pcache.open
                     pcache.os = real_os
         races(ctx, g, root)
+        old_sources(ctx, g, root)
+        unwritable_everything(ctx, g, root)
         # clean-up keeps entries in use
         cdir2 = Path(root) / 'cache2'
         now = time.time()
